@@ -162,6 +162,15 @@ def mps_checks(ctx):
         gen.mpo_from_latex(r"\sum_{j \in A} t n_{j}")          # default parameters=None: the Generator's own dictionary
     except TypeError as e:
         ctx.violation('Generator.mpo_from_latex raised TypeError: %s' % str(e)[:100], dict(kind='generator-default-parameters'), family='generator-default-parameters')
+    # objects handed out by the generator are the caller's: in-place work on them leaves the generator as it was
+    Iref = mgen.dense_state(gen.I(), gops)
+    got_I = gen.I()
+    got_I[0] = 2 * got_I[0]
+    got_I.canonize_(to='first')
+    ctx.case(dict(kind='generator-identity'), nontrivial=True)
+    if not np.array_equal(mgen.dense_state(gen.I(), gops), Iref):
+        ctx.violation('in-place operations on the MPO returned by Generator.I() changed what Generator.I() returns afterwards', dict(kind='generator-identity-shared'),
+                      family='generator-identity-shared')
     if repr(sorted(p2.items())) != b2:
         ctx.violation('Generator.mpo_from_latex(parameters=d) changed d', dict(kind='generator-parameters'), family='generator-mutates-parameters')
     for rep in range(nrep):
@@ -306,6 +315,35 @@ def peps_checks(ctx):
         psi.to_dict(level=2)
         if snap(psi) != sp:
             ctx.violation('Peps query changed the Peps', dict(kind='peps-mutates'))
+        # measurements are queries: the boundary MPSs stored in an EnvBoundaryMPS are what they were afterwards
+        try:
+            import sys as _sys, os as _os
+            _sys.path.insert(0, _os.path.join(vlib.VERIF, 'tools', 'checks'))
+            import C12
+            psi_e, _, ops_e, _, _ = C12.circuit_state(random.Random(rng.randrange(2 ** 31)), 'SpinlessFermions', rng.choice(['U1', 'Z2']), rng.choice([(2, 2), (2, 3), (3, 2)]), 3)
+            benv = fpeps.EnvBoundaryMPS(psi_e, opts_svd={'D_total': 8}, setup='lrtb')     # an entangled state: the boundary vectors are not trivial
+
+            def esnap(e_):
+                return tuple(sorted((repr(k_), mps_snap(v_)) for k_, v_ in e_._env.items() if hasattr(v_, 'A')))
+            I_, n_ = ops_e.I(), ops_e.n()
+            for qname, q in (('measure_1site', lambda: benv.measure_1site(n_)), ('measure_nn', lambda: benv.measure_nn(n_, n_)),
+                             ('measure_2site(dirn=h)', lambda: benv.measure_2site(n_, n_, dirn='h', opts_svd={'D_total': 8})),
+                             ('measure_2site(dirn=v)', lambda: benv.measure_2site(n_, n_, dirn='v', opts_svd={'D_total': 8})),
+                             ('measure_2site(cp, c, dirn=h)', lambda: benv.measure_2site(ops_e.cp(), ops_e.c(), dirn='h', opts_svd={'D_total': 8})),
+                             ('measure_nsite', lambda: benv.measure_nsite(n_, n_, sites=[(0, 0), (1, 1)], opts_svd={'D_total': 8})),
+                             ('sample', lambda: benv.sample(projectors=[ops_e.vec_n(val=0), ops_e.vec_n(val=1)], number=1))):
+                b4 = esnap(benv)
+                try:
+                    q()
+                except (yastn.YastnError, TypeError, KeyError, AttributeError, IndexError, ValueError):
+                    ctx.count('boundary-mps-query-rejected:' + qname)
+                    continue
+                ctx.case(dict(kind='boundary-mps-query', query=qname, rep=rep), nontrivial=True)
+                if esnap(benv) != b4:
+                    ctx.violation('EnvBoundaryMPS.%s changed the boundary MPSs stored in the environment' % qname, dict(kind='boundary-mps-query-mutates', query=qname),
+                                  family='boundary-mps-query-mutates')
+        except yastn.YastnError:
+            pass
         # option dictionaries handed to the in-place environment updates stay what they were
         for ename_, mk_ in (('EnvCTM.update_', lambda o_: fpeps.EnvCTM(psi, init='eye').update_(opts_svd=o_)),
                             ('EnvCTM.ctmrg_', lambda o_: fpeps.EnvCTM(psi, init='eye').ctmrg_(opts_svd=o_, max_sweeps=1))):
